@@ -14,10 +14,61 @@ FUNCTIONS = ["AutomationMgr::" + m for m in METHODS] + ["AutomationMgr::createBi
 # data members that the extracted bodies may name (reached through `#define m (self->m)`)
 MEMBERS = ["slots", "nslots", "per_slot", "active_slot", "learn_queue_len", "impl", "p", "instance", "backend",
            "damaged", "NRPN"]
-TRUSTED = []
-ASSUMPTIONS = []
-RULE = ""
-EXPLANATION = ""
+TRUSTED = [
+    "CBMC 6.11.0 (goto-cc, cbmc; built-in SAT back end), its IEEE-754 float model (round to nearest), va_list, memset models",
+    "x86-64 LP64 bit-vector semantics, FLT_EVAL_METHOD 0; shipped flags -DNDEBUG",
+    "extraction rules of DESIGN section 4 (R2) are meaning-preserving: method (implicit this -> self, members through "
+    "#define m (self->m), sibling calls through #define m(...) AutomationMgr_m(self, ...)), auto-ref, struct-lift "
+    "(std::function<void(const char*)> -> function pointer, foreign pointers -> const void*), defines, tail-cut; the rule "
+    "log with fire counts is in infrastructure_notes; the extracted C text compiled as C means what the C++ text means",
+    "g++ for the native base-case run (harness/C19/base_case.cpp) and the counterexample replays",
+]
+ASSUMPTIONS = [
+    "PARTIAL CLAIM: learn queue + bindings (all operations) and the linear mapping. Not covered: log scale (expf/logf), the "
+    "metadata part of createBinding/setSlotSubPath (Ports::apropos, atof), roundf for non-integral integer bounds, "
+    "monotonicity in the slot value and exactness of the end points for float parameters (CBMC does not decide them in the "
+    "time box: undecided, NOT claimed; set C19_FP_HARD=1 to attempt them in the thorough tier)",
+    "induction hypothesis of every operation obligation: INV = LQ && UNIQ(midi_cc) && UNIQ(midi_nrpn) && NRPN_RANGE "
+    "(spec/lq_spec.h); every other field of the manager is unconstrained (symbolic)",
+    "base case (constructor establishes INV) is decided by exhaustive native execution of the real constructor over the "
+    "configuration space 1..6 x 1..3 (static fact C19.base_case.constructor), not by CBMC",
+    "createBinding is modelled by its learn-queue tail (the `if(start_midi_learn ...) ...;` statement cut out with a "
+    "must-fire rule, lines logged); a textual must-not-fire rule shows the rest of createBinding names no queue field; "
+    "its callee updateMapping is covered by its own frame obligation; precondition 0 <= slot < nslots (createBinding "
+    "indexes slots[slot] unchecked)",
+    "MIDI input domain of handleMidi: channel 0..15, controller 0..127, value 0..127",
+    "rtosc_message (called by setSlotSub) is replaced by a harness-side recorder that records address pointer, type tag and "
+    "value: ASSUMES the contract of rtosc_message decided under C01 (the message <address, tag, value> is written into "
+    "the buffer); snprintf (slot name in clearSlot) is replaced by a stub that checks the destination holds n bytes",
+    "setSlot is replaced by its contract (contracts/automations.h) in the handleMidi obligations; the contract is proved "
+    "against the real setSlot+setSlotSub bodies by the obligations C19.setSlot.contract_* (every in-range slot index; "
+    "the call sites are shown to pass in-range indices); thorough tier also runs handleMidi end to end without it",
+    "index arguments: every in-range value and the out-of-range values -1, 6 (slot) / 3 (sub), INT_MIN, INT_MAX; "
+    "setSlotSub/updateMapping/setSlotSubGain/setSlotSubOffset additionally for EVERY int (symbolic index); clearSlot and "
+    "clearSlotSub (which memset) only for the listed out-of-range values",
+    "quick tier: nslots in 1..6 and per_slot in 1..3 are symbolic inputs over maximal-size heap objects (writes beyond "
+    "nslots/per_slot are excluded by an assertion, reads beyond them would go unnoticed); thorough tier adds every one of "
+    "the 18 configurations with exact-size heap objects",
+    "numeric obligations (linear scale, control_scale != 1): param_min <= param_max finite with |.| <= 2^100, control "
+    "points finite with |.| <= 2^100 (updateMapping yields that for |gain|,|offset| <= 2^20: obligation "
+    "updateMapping.points), slot value finite; integer parameters: integral bounds with |.| <= 2^30; exact end points: "
+    "min=km/256, max=kx/256, |km|,|kx| <= 2^16, integer parameter (multiples of 256)",
+    "control point arrays have >= 4 elements (updateMapping writes [0..3] whatever npoints is)",
+    "CBMC 6.11 does not apply the float->double default promotion to variadic arguments; the recorder reads an 'f' value "
+    "in the width CBMC passes it (natively: double)",
+]
+RULE = ("one obligation per operation and case of its abstract transition (clearSlot: waiting / not waiting; handleMidi: CC "
+        "bound / CC unbound / NRPN bound / NRPN unbound / NRPN sequence incomplete; enqueue; frame of setSlotSub, "
+        "updateMapping, clearSlotSub, setSlotSubGain, setSlotSubOffset; setSlot against its contract per slot index) plus "
+        "one per clause of the emitted-message sentence; non-trivial = >0 cbmc properties; distinct by name")
+EXPLANATION = ("History claim by induction over operations: INV (learn_queue_len = k >= 0, waiting slots hold ranks 1..k "
+               "once each, others -1, controllers bound at most once, NRPN registers in range) is assumed before and "
+               "proved after every operation, for every state and argument, together with the abstract queue transition "
+               "the statement demands (remove / pop head and bind it to exactly the controller moved / append / unchanged). "
+               "All loops are bounded by nslots <= 6, per_slot <= 3: the unwinding is complete (unwinding assertions). "
+               "Emitted message: address/type/exactly-once for every index; value in [min,max] for float and integer "
+               "parameters; control points finite and ordered for non-negative gain; exact end points at default "
+               "gain/offset for integer parameters.")
 QUEUE_TOKENS = r"\b(learning|learn_queue_len|midi_cc|midi_nrpn|NRPN)\b"
 
 
@@ -182,47 +233,165 @@ def extract_automations(ctx):
 
 
 def prepare(ctx):
+    _guard_vlib()
     extract_automations(ctx)
 
 
+def _guard_vlib():
+    """vlib.run_obligation counts only cbmc properties with status FAILURE; when the SAT solver runs out of memory cbmc
+    reports status ERROR for the undecided properties and vlib calls the obligation 'pass' (seen here: an 8 GB run of
+    clearSlot with a symbolic index 'passed' with all its assertions in status ERROR). Until vlib is repaired (reported),
+    C19 wraps the runner: any property that is neither SUCCESS nor FAILURE makes the obligation undecided (exit 2)."""
+    if getattr(vlib.run_obligation, "_c19_guard", False):
+        return
+    inner = vlib.run_obligation
+
+    def run_obligation(ctx, obl, want_trace=False, trace_props=()):
+        r = inner(ctx, obl, want_trace, trace_props)
+        odd = [p.get("property", "?") for p in (getattr(r, "raw_results", None) or [])
+               if p.get("status") not in ("SUCCESS", "FAILURE")]
+        if odd and r.status == "pass" and not want_trace:
+            r.status = "error"
+            r.detail = "cbmc left %d properties undecided (status ERROR/UNKNOWN, e.g. %s): %s" % (len(odd), odd[0], r.detail[:200])
+        return r
+    run_obligation._c19_guard = True
+    vlib.run_obligation = run_obligation
+
+
 OPS = "harness/C19/ops.c"
+EMIT = "harness/C19/emit.c"
 # every loop of code, spec and harness is bounded by nslots <= 6, per_slot <= 3, 4 control points, 4 NRPN registers:
 # --unwind 8 unwinds all of them completely; the unwinding assertions prove that (a failure would be exit 2)
 UNWIND = ["--object-bits", "12", "--unwind", "8", "--unwinding-assertions"]
+REPL = {"C19_REPLACE_setSlot": None}
+SPACE = "nslots 1..6 x per_slot 1..3 (symbolic), all field values symbolic under INV"
+
+# (name, entry, defines): the induction step, one row per operation and case
+OP_TABLE = [
+    ("clearSlot.waiting", "h_clearSlot", {"CASE_WAITING": None}),
+    ("clearSlot.not_waiting", "h_clearSlot", {"CASE_NOT_WAITING": None}),
+    ("handleMidi.cc_bound", "h_handleMidi", dict(REPL, CASE_CC_BOUND=None)),
+    ("handleMidi.cc_unbound", "h_handleMidi", dict(REPL, CASE_CC_UNBOUND=None)),
+    ("handleMidi.nrpn_bound", "h_handleMidi", dict(REPL, CASE_NRPN_BOUND=None)),
+    ("handleMidi.nrpn_unbound", "h_handleMidi", dict(REPL, CASE_NRPN_UNBOUND=None)),
+    ("handleMidi.nrpn_incomplete", "h_handleMidi", dict(REPL, CASE_NRPN_INCOMPLETE=None)),
+    ("enqueue", "h_enqueue", {}),
+    ("setSlotSub.frame", "h_setSlotSub", {"ANY_INDEX": None}),
+    ("updateMapping.frame", "h_updateMapping", {"ANY_INDEX": None}),
+    ("clearSlotSub.frame", "h_clearSlotSub", {}),
+    ("setSlotSubGain.frame", "h_setSlotSubGain", {"ANY_INDEX": None}),
+    ("setSlotSubOffset.frame", "h_setSlotSubOffset", {"ANY_INDEX": None}),
+]
 
 
-def configs(tier):
-    return [(ns, ps) for ns in range(1, 7) for ps in range(1, 4)]
+def _op_rows(ns):
+    rows = list(OP_TABLE)
+    # setSlot against its contract: one obligation per slot index (constant), one for the out-of-range representatives
+    rows += [("setSlot.contract_s%d" % i, "h_setSlot", {"FIXED_SLOT": str(i)}) for i in range(ns)]
+    rows += [("setSlot.contract_oor", "h_setSlot", {})]
+    return rows
 
 
 def op_obligations(ctx):
     obls = []
-    table = [  # (name, entry, extra defines)
-        ("clearSlot.waiting", "h_clearSlot", {"CASE_WAITING": None}),
-        ("clearSlot.not_waiting", "h_clearSlot", {"CASE_NOT_WAITING": None}),
-        ("handleMidi.cc_bound", "h_handleMidi", {"CASE_CC_BOUND": None, "C19_REPLACE_setSlot": None}),
-        ("handleMidi.cc_unbound", "h_handleMidi", {"CASE_CC_UNBOUND": None, "C19_REPLACE_setSlot": None}),
-        ("handleMidi.nrpn_bound", "h_handleMidi", {"CASE_NRPN_BOUND": None, "C19_REPLACE_setSlot": None}),
-        ("handleMidi.nrpn_unbound", "h_handleMidi", {"CASE_NRPN_UNBOUND": None, "C19_REPLACE_setSlot": None}),
-        ("handleMidi.nrpn_incomplete", "h_handleMidi", {"CASE_NRPN_INCOMPLETE": None, "C19_REPLACE_setSlot": None}),
-        ("enqueue", "h_enqueue", {"NOSPLIT": None}),
-        ("setSlotSub.frame", "h_setSlotSub", {"NOSPLIT": None}),
-        ("updateMapping.frame", "h_updateMapping", {"NOSPLIT": None}),
-        ("clearSlotSub.frame", "h_clearSlotSub", {}),
-        ("setSlotSubGain.frame", "h_setSlotSubGain", {"NOSPLIT": None}),
-        ("setSlotSubOffset.frame", "h_setSlotSubOffset", {"NOSPLIT": None}),
-    ]
-    for ns, ps in configs(ctx.tier):
-        rows = list(table)
-        # setSlot against its contract: one obligation per in-range slot index, one for the out-of-range representatives
-        rows += [("setSlot.contract_s%d" % i, "h_setSlot", {"FIXED_SLOT": str(i)}) for i in range(ns)]
-        rows += [("setSlot.contract_oor", "h_setSlot", {})]
-        for name, entry, defs in rows:
-            d = dict(defs, NS=str(ns), PS=str(ps))
-            obls.append(Obl("C19.%s.n%dx%d" % (name, ns, ps), "C19", OPS, entry=entry, defines=d, mode="proof",
-                            replayable=True, cbmc=UNWIND, timeout=600, case={"nslots": ns, "per_slot": ps}))
+    # (1) the whole configuration space in one obligation per operation: nslots, per_slot symbolic
+    for name, entry, defs in _op_rows(6):
+        d = dict(defs, NS="6", PS="3", SYMCFG=None)
+        obls.append(Obl("C19.%s" % name, "C19", OPS, entry=entry, defines=d, mode="proof", replayable=True, cbmc=UNWIND,
+                        timeout=900, bound=SPACE, functions=[entry[2:]], case={"nslots": "1..6", "per_slot": "1..3"}))
+    if ctx.tier != "quick":
+        # (2) every configuration on its own, exact-size heap objects (an access beyond nslots/per_slot traps)
+        for ns in range(1, 7):
+            for ps in range(1, 4):
+                for name, entry, defs in _op_rows(ns):
+                    d = dict(defs, NS=str(ns), PS=str(ps))
+                    obls.append(Obl("C19.%s.n%dx%d" % (name, ns, ps), "C19", OPS, entry=entry, defines=d, mode="proof",
+                                    replayable=True, cbmc=UNWIND, timeout=900,
+                                    bound="nslots=%d, per_slot=%d exactly (exact-size objects)" % (ns, ps),
+                                    case={"nslots": ns, "per_slot": ps}))
+        # (3) handleMidi end to end (real setSlot/setSlotSub instead of the setSlot contract), small configuration
+        for name, entry, defs in OP_TABLE:
+            if entry == "h_handleMidi":
+                d = {k: v for k, v in defs.items() if k != "C19_REPLACE_setSlot"}
+                d.update(NS="2", PS="2")
+                obls.append(Obl("C19.%s.end_to_end.n2x2" % name, "C19", OPS, entry=entry, defines=d, mode="proof",
+                                replayable=True, cbmc=UNWIND, timeout=900, bound="nslots=2, per_slot=2, no callee replaced",
+                                case={"nslots": 2, "per_slot": 2}))
     return obls
 
 
+def emit_obligations(ctx):
+    obls = []
+    def fp(name, entry, defs, timeout=280, **kw):
+        d = dict(defs, NS="2", PS="2")
+        obls.append(Obl("C19.%s" % name, "C19", EMIT, entry=entry, defines=d, mode="proof", replayable=True, cbmc=UNWIND,
+                        timeout=timeout, bound="one automation (constant indices), numeric domain D_* of harness/C19/emit.c", **kw))
+    # address / type / exactly one message: every index (symbolic), whole configuration space, no floating point
+    obls.append(Obl("C19.emit.addr_type", "C19", EMIT, entry="h_emit_addr_type", defines={"NS": "6", "PS": "3", "SYMCFG": None},
+                    mode="proof", replayable=True, cbmc=UNWIND, timeout=600, bound=SPACE + ", every int as slot/sub index",
+                    functions=["setSlotSub"]))
+    fp("emit.range_f", "h_emit_range", {})
+    fp("emit.range_i", "h_emit_range", {"TYPE_I": None})
+    fp("updateMapping.points", "h_updateMapping_points", {})
+    if ctx.tier != "quick":
+        fp("emit.default_endpoints_i", "h_emit_default_linear", {"TYPE_I": None}, timeout=1200)
+        if os.environ.get("C19_FP_HARD"):
+            # not decided by CBMC inside the time box on the development machine (two coupled 24x24 bit multipliers /
+            # a multiply-divide round trip): reported undecided (exit 2) when they time out, never claimed
+            fp("emit.monotone_f", "h_emit_monotone", {}, timeout=3600, solver="kissat")
+            fp("emit.monotone_i", "h_emit_monotone", {"TYPE_I": None}, timeout=3600, solver="kissat")
+            fp("emit.monotone_T", "h_emit_monotone", {"TYPE_T": None}, timeout=3600, solver="kissat")
+            fp("emit.default_linear_f", "h_emit_default_linear", {"LINEAR_MID": None}, timeout=3600, solver="kissat")
+            fp("emit.default_endpoints_T", "h_emit_default_linear", {"TYPE_T": None}, timeout=3600, solver="kissat")
+    return obls
+
+
+def canaries(ctx):
+    """vacuity guards: same harnesses with -DVERIF_CANARY (every V_COVER must be reachable), small variant"""
+    c = []
+    def can(name, harness, entry, defs):
+        d = dict(defs, NS="3", PS="2")
+        c.append(Obl("C19.canary.%s" % name, "C19", harness, entry=entry, defines=d, mode="proof", cbmc=UNWIND, timeout=600,
+                     canary=True, replayable=False))
+    can("clearSlot", OPS, "h_clearSlot", {"SYMCFG": None})
+    can("handleMidi", OPS, "h_handleMidi", dict(REPL, SYMCFG=None))
+    can("enqueue", OPS, "h_enqueue", {"SYMCFG": None})
+    can("setSlot", OPS, "h_setSlot", {"SYMCFG": None, "FIXED_SLOT": "1"})
+    can("setSlotSub", OPS, "h_setSlotSub", {"SYMCFG": None, "ANY_INDEX": None})
+    can("frame", OPS, "h_clearSlotSub", {"SYMCFG": None})
+    can("emit.addr_type", EMIT, "h_emit_addr_type", {"SYMCFG": None})
+    can("emit.range_f", EMIT, "h_emit_range", {})
+    can("emit.range_i", EMIT, "h_emit_range", {"TYPE_I": None})
+    can("updateMapping.points", EMIT, "h_updateMapping_points", {})
+    if ctx.tier != "quick":
+        can("emit.default_endpoints_i", EMIT, "h_emit_default_linear", {"TYPE_I": None})
+    return c
+
+
 def obligations(ctx):
-    return op_obligations(ctx)
+    return op_obligations(ctx) + emit_obligations(ctx) + canaries(ctx)
+
+
+def static_checks(ctx):
+    """Base case of the induction: the real constructor, executed natively for every configuration (see base_case.cpp)."""
+    name = "C19.base_case.constructor"
+    try:
+        exe = os.path.join(ctx.scratch, "base_case")
+        cmd = ["g++", "-std=c++11", "-O1", "-w", "-ffunction-sections", "-fdata-sections",
+               "-I", os.path.join(ctx.repo, "include"), "-I", os.path.join(ctx.repo, "src"), "-I", os.path.join(vlib.VERIF, "spec"),
+               os.path.join(vlib.VERIF, "harness/C19/base_case.cpp"), os.path.join(ctx.repo, "src/cpp/automations.cpp"),
+               "-Wl,--gc-sections", "-o", exe]
+        rc, txt, _ = vlib.sh(cmd, 300, 16)
+        if rc != 0:
+            ctx.infra_errors.append("%s: native build failed: %s" % (name, txt[-600:]))
+            return []
+        rc, txt, _ = vlib.sh(["timeout", "60", exe], 120, 16)
+        if rc not in (0, 1):
+            ctx.infra_errors.append("%s: native run ended with rc=%s: %s" % (name, rc, txt[-600:]))
+            return []
+        ctx.notes.append("%s: %s" % (name, txt.strip().splitlines()[-1] if txt.strip() else "no output"))
+        return [{"name": name, "ok": rc == 0, "detail": txt[-3000:],
+                 "what": "freshly constructed AutomationMgr satisfies INV, all 18 configurations x 2 storage fill patterns"}]
+    except Exception as e:      # never let an infrastructure problem look like a verdict
+        ctx.infra_errors.append("%s: %r" % (name, e))
+        return []
